@@ -132,9 +132,24 @@ def r2(ctx):
     h = prog.fn('handle_new_connection')
     acc = [ev for ev in h.events('STORE') if ev.rhs is not None and callee_of(unwrap(ev.rhs)) == 'qb_ipcs_service_handlers::connection_accept']
     con = [ev for ev in h.events('CALL') if ev.callee == 'qb_ipcs_funcs::connect']
+    acalls = list(h.calls('qb_ipcs_service_handlers::connection_accept'))
+    if len(acalls) == 1 and not acc and len(con) == 1:
+        # the callback is called but what it returns is not kept: the refused client is told something else
+        ctx.viol('R2', 'refused:the-error-sent-is-the-callbacks', acalls[0],
+                 'the value connection_accept returns is only tested, not kept: whatever the callback refused with (-EAGAIN for "not ready yet", -ENOMEM, ...), '
+                 'the response carries another error and the client\'s connect call fails with that one instead')
+        return
     if len(acc) != 1 or len(con) != 1:
         raise AnalysisBroken('handle_new_connection: accept=%d connect=%d' % (len(acc), len(con)))
     resv = estr(acc[0].lhs)
+    # ... and it is that variable that goes into the response
+    errs = [st for st in h.events('STORE') if last_field(st.lhs) == ('qb_ipc_response_header', 'error') or
+            (last_field(st.lhs) or (None, None))[1] == 'error']
+    if not errs:
+        raise AnalysisBroken('handle_new_connection: no store to the response\'s error field')
+    ctx.check('R2', 'refused:the-error-sent-is-the-callbacks', all(estr(unwrap(st.rhs)) == resv for st in errs), errs[0],
+              'the response carries the variable that holds the accept callback\'s result',
+              'the response\'s error field is set from %s, not from %s which holds what the accept callback returned' % (estr(errs[0].rhs), resv))
     ctx.check('R2', 'connect-after-accept', h.may_follow(acc[0], con[0]) and not h.may_follow(con[0], acc[0]), con[0],
               'the transport connect comes after the accept callback', 'the transport connect can run before the accept callback')
     zero = lambda a, fb: a.ls == resv and a.op == '==' and a.rc == 0
